@@ -196,6 +196,14 @@ func classifyUses(v ssa.Value, depth int, out *[]access, what string) {
 			classifyUses(x, depth+1, out, what+"[]")
 		case ssa.CallInstruction:
 			c := x.Common()
+			// shared state handed to a function of the repository: what the callee does with its parameter counts
+			if f := c.StaticCallee(); f != nil && f.Blocks != nil && strings.HasPrefix(f.String(), "(") == (f.Signature.Recv() != nil) && strings.Contains(f.String(), modPath) {
+				for i, a := range c.Args {
+					if a == v && i < len(f.Params) {
+						classifyUses(f.Params[i], depth+1, out, what)
+					}
+				}
+			}
 			if b, ok := c.Value.(*ssa.Builtin); ok {
 				switch b.Name() {
 				case "delete", "clear":
@@ -237,6 +245,143 @@ func classifyFieldAddr(fa *ssa.FieldAddr, depth int, out *[]access, what string)
 			classifyUses(x, depth+1, out, what+"[]")
 		}
 	}
+}
+
+// instrDominates: a is executed before b on every path to b (same function)
+func instrDominates(a, b ssa.Instruction) bool {
+	if a.Parent() != b.Parent() || a == b {
+		return false
+	}
+	if a.Block() == b.Block() {
+		for _, x := range a.Block().Instrs {
+			if x == a {
+				return true
+			}
+			if x == b {
+				return false
+			}
+		}
+		return false
+	}
+	return a.Block().Dominates(b.Block())
+}
+
+func syncCalls(fn *ssa.Function, names ...string) []ssa.Instruction {
+	var out []ssa.Instruction
+	for _, b := range fn.Blocks {
+		for _, x := range b.Instrs {
+			c, ok := x.(ssa.CallInstruction)
+			if !ok || c.Common().StaticCallee() == nil {
+				continue
+			}
+			full := c.Common().StaticCallee().String()
+			for _, n := range names {
+				if full == n {
+					out = append(out, x)
+				}
+			}
+		}
+	}
+	return out
+}
+
+// contentRead: the access reads what the guarded state holds (a map element, a range over it, a scalar cell) - not
+// merely the map or slice header on the way to an update
+func contentRead(a access) bool {
+	if a.write {
+		return false
+	}
+	switch x := a.ins.(type) {
+	case *ssa.Lookup, *ssa.Range:
+		return true
+	case *ssa.UnOp:
+		_, basic := underlying(x.Type()).(*types.Basic)
+		return basic
+	}
+	return false
+}
+
+// decidesBranch: a branch condition is computed from the value the instruction produced
+func decidesBranch(ins ssa.Instruction) *ssa.If {
+	v, ok := ins.(ssa.Value)
+	if !ok {
+		return nil
+	}
+	seen := map[ssa.Value]bool{v: true}
+	work := []ssa.Value{v}
+	for len(work) > 0 && len(seen) < 64 {
+		cur := work[0]
+		work = work[1:]
+		refs := cur.Referrers()
+		if refs == nil {
+			continue
+		}
+		for _, r := range *refs {
+			switch x := r.(type) {
+			case *ssa.If:
+				return x
+			case *ssa.Extract, *ssa.BinOp, *ssa.Phi, *ssa.ChangeType, *ssa.Convert:
+				if xv := x.(ssa.Value); !seen[xv] {
+					seen[xv] = true
+					work = append(work, xv)
+				}
+			case *ssa.UnOp:
+				if x.Op != token.MUL && !seen[x] {
+					seen[x] = true
+					work = append(work, x)
+				}
+			}
+		}
+	}
+	return nil
+}
+
+// checkThenAct: a write to lock-guarded state, made in one critical section, that was decided by a read of the same
+// state made in an earlier critical section of the same function, with no fresh read in the section of the write.
+// Between the two sections another goroutine can change what was read: the update is lost or doubled.
+func checkThenAct(e *Engine, acc []access) []string {
+	var bad []string
+	for _, w := range acc {
+		if !w.write {
+			continue
+		}
+		var lc ssa.Instruction
+		for _, l := range syncCalls(w.fn, "(*sync.Mutex).Lock", "(*sync.RWMutex).Lock") {
+			if instrDominates(l, w.ins) && (lc == nil || instrDominates(lc, l)) {
+				lc = l
+			}
+		}
+		if lc == nil {
+			continue
+		}
+		fresh := false
+		for _, r := range acc {
+			if r.fn == w.fn && contentRead(r) && instrDominates(lc, r.ins) && (instrDominates(r.ins, w.ins) || r.ins.Block() == w.ins.Block()) {
+				fresh = true
+			}
+		}
+		if fresh {
+			continue
+		}
+		unlocks := syncCalls(w.fn, "(*sync.Mutex).Unlock", "(*sync.RWMutex).Unlock", "(*sync.RWMutex).RUnlock")
+		for _, r := range acc {
+			if r.fn != w.fn || !contentRead(r) || !instrDominates(r.ins, lc) {
+				continue
+			}
+			released := false
+			for _, u := range unlocks {
+				if instrDominates(r.ins, u) && instrDominates(u, lc) {
+					released = true
+				}
+			}
+			br := decidesBranch(r.ins)
+			if released && br != nil && (instrDominates(br, lc) || br.Block().Dominates(lc.Block())) {
+				bad = append(bad, fmt.Sprintf("%s in %s (%s) is decided by the %s at %s made before the lock was released and taken again, and nothing is read again under the lock", w.what, fnKey(w.fn), e.posString(w.ins.Pos()), r.what, e.posString(r.ins.Pos())))
+			}
+		}
+	}
+	sort.Strings(bad)
+	return bad
 }
 
 func runC10(e *Engine, tier Tier) *PropRun {
@@ -349,8 +494,33 @@ func runC10(e *Engine, tier Tier) *PropRun {
 				continue
 			}
 			// mutable: every access (read of the mutable parts and write) must be dominated by a lock acquisition
+			// per field: a part of the object that is never written after initialisation may be read without the lock
+			fieldOf := func(what string) string {
+				f := what
+				if i := strings.Index(f, " "); i >= 0 {
+					f = f[:i]
+				}
+				return strings.TrimRight(f, "[]")
+			}
+			writtenField := map[string]bool{}
+			for _, a := range acc {
+				if a.write {
+					writtenField[fieldOf(a.what)] = true
+				}
+			}
+			mayChange := func(f string) bool {
+				for w := range writtenField {
+					if w == f || strings.HasPrefix(f, w+".") || strings.HasPrefix(w, f+".") || !strings.Contains(w, ".") {
+						return true
+					}
+				}
+				return false
+			}
 			var bad []string
 			for _, a := range acc {
+				if !a.write && !mayChange(fieldOf(a.what)) {
+					continue
+				}
 				if !lockDominates(a.ins, a.write) {
 					bad = append(bad, fmt.Sprintf("%s in %s (%s)", a.what, fnKey(a.fn), e.posString(a.ins.Pos())))
 				}
@@ -358,6 +528,12 @@ func runC10(e *Engine, tier Tier) *PropRun {
 			if len(bad) == 0 {
 				nGuard++
 				syn.Obls = append(syn.Obls, &Obligation{Name: "own:" + short, Kind: "own", Fn: short, Answer: "unsat", Solver: "ownership analysis", Desc: "every access is dominated by a Lock/RLock in its function"})
+				// atomicity of updates: no write decided by a read from an earlier critical section
+				if cta := checkThenAct(e, acc); len(cta) == 0 {
+					syn.Obls = append(syn.Obls, &Obligation{Name: "atomic:" + short, Kind: "own", Fn: short, Answer: "unsat", Solver: "ownership analysis", Desc: "every update is made in the critical section that read what it depends on"})
+				} else {
+					syn.Obls = append(syn.Obls, &Obligation{Name: "atomic:" + short, Kind: "own", Fn: short, Pos: cta[0], Answer: "sat", Solver: "ownership analysis", Desc: "check-then-act across critical sections: " + strings.Join(cta, "; ")})
+				}
 				continue
 			}
 			sort.Strings(bad)
@@ -382,7 +558,7 @@ func runC10(e *Engine, tier Tier) *PropRun {
 			}
 			return o.Kind == "own" || o.Kind == "rg"
 		},
-		Explanation: fmt.Sprintf("(1) Ownership discipline: one obligation own:<var> for each of the %d package-level variables of the library packages (enumerated from go/ssa): it is a sync/atomic object (%d), or immutable after initialisation - no store, map update, element store or append outside init, followed through loads, field and index addressing (%d) -, or every access is dominated by a Lock/RLock (%d); anything else fails with the offending sites. (2) Exact metrics under interference: rely/guarantee obligations rg:<cell> at every sync/atomic Store/Add/Swap/CompareAndSwap of a cell with an rg specification in pkg/metrics/contracts_verif.go: the update must satisfy the cell's guarantee for every value the cell may hold at that instant, i.e. every value rely-reachable from what this thread last loaded (for a successful CompareAndSwap: exactly the expected value).", nvars, nSync, nImm, nGuard),
+		Explanation: fmt.Sprintf("(1) Ownership discipline: one obligation own:<var> for each of the %d package-level variables of the library packages (enumerated from go/ssa): it is a sync/atomic object (%d), or immutable after initialisation - no store, map update, element store or append outside init, followed through loads, field and index addressing (%d) -, or every access is dominated by a Lock/RLock (%d); anything else fails with the offending sites. Shared state handed to a function of the repository as an argument or receiver is followed into that function; a part of a guarded object that is never written after initialisation may be read without the lock. (1b) Atomicity of guarded updates (atomic:<var>, one per lock-guarded variable): no write made in one critical section is decided by a read of the same state made in an earlier critical section of the same function (lock released and taken again in between) unless the state is read again under the lock - the check-then-act pattern that loses or doubles an update under a particular interleaving. (2) Exact metrics under interference: rely/guarantee obligations rg:<cell> at every sync/atomic Store/Add/Swap/CompareAndSwap of a cell with an rg specification in pkg/metrics/contracts_verif.go: the update must satisfy the cell's guarantee for every value the cell may hold at that instant, i.e. every value rely-reachable from what this thread last loaded (for a successful CompareAndSwap: exactly the expected value).", nvars, nSync, nImm, nGuard),
 		NotCovered:  []string{"the Go memory model / all schedules (a sequential VC generator cannot quantify over them; the race detector is a different family)", "objects the caller shares between goroutines against the documented contract", "returns-what-it-returns-alone is the consequence of C08 + C09 + ownership, argued not proved", "lock/unlock pairing beyond dominance by an acquisition", "cmd/ packages", "metrics.Reset (re-initialises the cells; the totals are exact between two resets)"},
 		Assumptions: []string{"sync.Pool, sync.Mutex, sync/atomic behave as documented", "a value loaded from an immutable table is not written through an alias obtained elsewhere"},
 		Level:       "other",
